@@ -26,6 +26,7 @@ type Config struct {
 	DefaultStrBound int
 	MaxViolPerID    int
 	Bounds          map[string]int
+	Owner           string // check mode: assertions whose id names another property are observed, not enforced
 	NoMerge         bool
 	EagerFeas       bool
 	NoPrune         bool
@@ -64,6 +65,7 @@ type ObsValue struct {
 type HarnessReport struct {
 	Name            string
 	Pkg             string
+	Owner           string
 	Paths           int
 	Steps           int
 	Obligations     int
@@ -696,6 +698,7 @@ func (e *Engine) RunHarness(fn *ssa.Function, caseIdx int) *HarnessReport {
 	rep := &HarnessReport{Name: fn.Name(), Unsupported: map[string]int{}, Reach: map[string]int{}, AssertIDs: map[string]int{},
 		Notes: map[string]int{}, Funcs: map[string]bool{}, Intrinsics: map[string]int{}, Bounds: map[string]int{}, Assumes: map[string]int{}}
 	e.rep = rep
+	rep.Owner = e.cfg.Owner
 	e.harnessOpts = map[string]int{}
 	if fn.Pkg != nil {
 		rep.Pkg = fn.Pkg.Pkg.Path()
